@@ -161,3 +161,71 @@ func toInt64V(i *interpreter, v value) value {
 }
 
 var _ = fmt.Sprint
+
+// ---- Kubernetes client helpers ----
+
+var gvkTable = map[string][3]string{
+	"sigs.k8s.io/karpenter/pkg/apis/v1.NodeClaim":           {"karpenter.sh", "v1", "NodeClaim"},
+	"sigs.k8s.io/karpenter/pkg/apis/v1.NodePool":            {"karpenter.sh", "v1", "NodePool"},
+	"sigs.k8s.io/karpenter/pkg/apis/v1alpha1.NodeOverlay":   {"karpenter.sh", "v1alpha1", "NodeOverlay"},
+	"sigs.k8s.io/karpenter/pkg/test/v1alpha1.TestNodeClass": {"karpenter.test.sh", "v1alpha1", "TestNodeClass"},
+	"k8s.io/api/core/v1.Node":                               {"", "v1", "Node"},
+	"k8s.io/api/core/v1.Pod":                                {"", "v1", "Pod"},
+	"k8s.io/api/core/v1.PersistentVolumeClaim":              {"", "v1", "PersistentVolumeClaim"},
+	"k8s.io/api/apps/v1.DaemonSet":                          {"apps", "v1", "DaemonSet"},
+	"k8s.io/api/policy/v1.PodDisruptionBudget":              {"policy", "v1", "PodDisruptionBudget"},
+	"k8s.io/api/storage/v1.VolumeAttachment":                {"storage.k8s.io", "v1", "VolumeAttachment"},
+}
+
+func init() {
+	registerIntrinsic("github.com/awslabs/operatorpkg/object.GVK", func(i *interpreter, fr *frame, fn *ssa.Function, a []value) value {
+		o := a[0].(iface)
+		if o.t == nil {
+			panic(targetPanic{"object.GVK(nil)"})
+		}
+		t := o.t
+		if p, ok := t.Underlying().(*types.Pointer); ok {
+			t = p.Elem()
+		}
+		g, ok := gvkTable[typeString(t)]
+		if !ok {
+			panic(unsupported("object.GVK of %s", t))
+		}
+		return structure{g[0], g[1], g[2]}
+	})
+	registerIntrinsic("k8s.io/client-go/util/workqueue.ParallelizeUntil", func(i *interpreter, fr *frame, fn *ssa.Function, a []value) value {
+		// one linearisation: pieces in index order (DESIGN §3.10)
+		n, ok := i.ctx.concretizeInt(i.lastPos, a[2], 0, 64)
+		if !ok {
+			panic(unsupported("ParallelizeUntil with more than 64 pieces"))
+		}
+		for k := int64(0); k < n; k++ {
+			call(i, fr, i.lastPos, a[3], []value{int(k)})
+		}
+		return nil
+	})
+	registerIntrinsic("k8s.io/client-go/util/retry.OnError", func(i *interpreter, fr *frame, fn *ssa.Function, a []value) value {
+		// at most two attempts
+		var err value = iface{}
+		for attempt := 0; attempt < 2; attempt++ {
+			err = call(i, fr, i.lastPos, a[2], nil)
+			if err.(iface).t == nil {
+				return err
+			}
+			if !i.ctx.concretizeBool(i.lastPos, call(i, fr, i.lastPos, a[1], []value{err})) {
+				return err
+			}
+		}
+		return err
+	})
+	registerIntrinsic("k8s.io/client-go/util/retry.RetryOnConflict", func(i *interpreter, fr *frame, fn *ssa.Function, a []value) value {
+		var err value = iface{}
+		for attempt := 0; attempt < 2; attempt++ {
+			err = call(i, fr, i.lastPos, a[1], nil)
+			if e := err.(iface); e.t == nil {
+				return err
+			}
+		}
+		return err
+	})
+}
